@@ -250,6 +250,8 @@ def phiSolver (fam : Fam) (pooled : Bool) (primal : Option (Int × List Dec)) (i
   | some v, some p =>
     if v != lb then f := "C02:reported value differs from best_lower_bound()" :: f
     if !(nodupVars p) then f := "C02:several decisions for one variable" :: f
+    -- C14: a later set_primal with an equal or smaller value (marker solutions 77 / 78) must not replace the incumbent
+    if p.any (fun d => d.val == 77 || d.val == 78) then f := "C14:set_primal replaced the incumbent although the new value was not strictly greater" :: f
     let root : SubP Int := { state := P.init, value := P.initVal, path := [], ub := iMax, depth := 0 }
     -- a solution handed in by the caller may be returned unchanged
     let isCallers := match primal with | some (pv, pp) => pv == v && sortDecs pp == sortDecs p | none => false
